@@ -137,10 +137,12 @@ impl LibPanic {
             None => (self.message.clone(), "?".to_string()),
         };
         let file = loc.rsplit_once(':').map(|x| x.0.to_string()).unwrap_or(loc);
-        let file = file
-            .rsplit_once("/src/")
-            .map(|x| format!("src/{}", x.1))
-            .unwrap_or(file);
+        // crate-relative: `src/..` for the library under test, `<crate>-<version>/..` for dependencies
+        let file = if let Some((_, rest)) = file.split_once("/registry/src/") {
+            rest.split_once('/').map(|x| x.1.to_string()).unwrap_or_else(|| rest.to_string())
+        } else {
+            file.rsplit_once("/src/").map(|x| format!("src/{}", x.1)).unwrap_or(file)
+        };
         let mut norm = String::new();
         let mut last_digit = false;
         for c in msg.chars().take(60) {
